@@ -87,3 +87,32 @@ func init() {
 	}
 	emitters["RegexLeafCode"] = func(repo string) (string, error) { return translateType(repo, leafCfg("regexLeaf", "RegexLeafCode")) }
 }
+
+func init() { emitters["LeafURLCode"] = emitLeafURLCode }
+
+// Gen/LeafURLCode.lean: `baseLeaf.URLPath` (leaf.go) — the text a named route's URL is built from and the substitution of the
+// values: two nested range loops over the route's segments and their elements, a bytes.Buffer, then strings.NewReplacer over
+// the pairs `{name}` → value (Code/LibRoute.lean: the replacer is the model's `replaceAll`).
+func emitLeafURLCode(repo string) (string, error) {
+	return translateType(repo, codeCfg{
+		pkg:          "./internal/route",
+		recvType:     "baseLeaf",
+		namespace:    "Flamego.Gen.LeafURLCode",
+		imports:      []string{"Flamego.Code.GoSem", "Flamego.Code.LibRoute"},
+		stringBytes:  true,
+		opaqueFields: true,
+		ptrOption:    true,
+		structs:      []string{"BindParameterValue", "BindParameter", "BindParameters", "SegmentElement", "Segment", "Route"},
+		types:        map[string]string{"bytes.Buffer": "Lib.Buffer", "*strings.Replacer": "Lib.Replacer"},
+		lib: map[string]string{
+			"(*bytes.Buffer).String":      "Lib.Buffer_String",
+			"(*bytes.Buffer).Len":         "Lib.Buffer_Len",
+			"strings.NewReplacer":         "Lib.strings_NewReplacer",
+			"(*strings.Replacer).Replace": "Lib.Replacer_Replace",
+		},
+		libMut: map[string]string{"(*bytes.Buffer).WriteString": "Lib.Buffer_WriteString"},
+		skip: map[string]string{"matchHeader": "needs the HeaderMatcher the leaf points to (C09's own tie is Gen/HeaderCode.lean)",
+			"Static": "not a method of baseLeaf's own logic", "SetHeaderMatcher": "stores a pointer to another object", "setOptionalLeaf": "stores an interface value",
+			"getParent": "returns an interface value", "Handler": "returns an interface value", "getSegment": "returns a pointer", "Route": "renders the route (C06's subject)"},
+	})
+}
